@@ -20,6 +20,7 @@ type wResult struct {
 	EdgeBad     string                    // first edge violating "edge weight = target (+1 if hop)", "" if none
 	EdgeWildBad string                    // first edge whose wildcard list is not its target's (or {T} into T:*)
 	Full        string                    // everything, for equality across runs
+	Assign      string                    // weights and wildcards of nodes and edges in the format of the driver's `wassign` answer
 	RawNodes    int
 }
 
@@ -93,7 +94,14 @@ func dumpWGraph(g *graph.WeightedAuthorizationModelGraph, withWeights bool) wRes
 		nodes = append(nodes, nn{nm(ul), n})
 	}
 	sort.Slice(nodes, func(i, j int) bool { return nodes[i].c < nodes[j].c })
-	var ns, es, ws strings.Builder
+	var ns, es, ws, as strings.Builder
+	qw := func(xs []string) string {
+		q := []string{}
+		for _, x := range xs {
+			q = append(q, Q(x))
+		}
+		return strings.Join(q, " ")
+	}
 	res := wResult{Weights: map[string]map[string]int{}, Wild: map[string][]string{}, RawNodes: len(nodes)}
 	for _, x := range nodes {
 		fmt.Fprintf(&ns, " (%s %s %d)", Q(x.c), Q(x.n.GetLabel()), int(x.n.GetNodeType()))
@@ -119,6 +127,7 @@ func dumpWGraph(g *graph.WeightedAuthorizationModelGraph, withWeights bool) wRes
 			sort.Strings(wc)
 			res.Wild[x.c] = wc
 			fmt.Fprintf(&ws, " (%s %s (%s))", Q(x.c), sortedWeights(w), strings.Join(wc, " "))
+			fmt.Fprintf(&as, " (n %s %s (%s))", Q(x.c), sortedWeights(w), qw(wc))
 			for i, e := range out {
 				ew := map[string]int{}
 				for k, v := range e.GetWeights() {
@@ -127,6 +136,7 @@ func dumpWGraph(g *graph.WeightedAuthorizationModelGraph, withWeights bool) wRes
 				ewc := append([]string{}, e.GetWildcards()...)
 				sort.Strings(ewc)
 				fmt.Fprintf(&ws, " (edge %s %d %s (%s))", Q(x.c), i, sortedWeights(ew), strings.Join(ewc, " "))
+				fmt.Fprintf(&as, " (e %s %d %s (%s))", Q(x.c), i, sortedWeights(ew), qw(ewc))
 				// edge rule: target's weights (+1 if hop); {T:1} into a terminal
 				want := map[string]int{}
 				to := e.GetTo()
@@ -160,6 +170,7 @@ func dumpWGraph(g *graph.WeightedAuthorizationModelGraph, withWeights bool) wRes
 	}
 	res.Struct = "(wg (nodes" + ns.String() + ") (edges" + es.String() + "))"
 	res.Full = res.Struct + " (weights" + ws.String() + ")"
+	res.Assign = "(ok" + as.String() + ")"
 	return res
 }
 
